@@ -88,6 +88,18 @@ def run_gosym(scratch, overlay, pkgdir, harnesses=None, jobs=None, opts=None, ta
     return res
 
 
+def build_wasm(scratch, overlay, cmds):
+    """Run the wbuild tool (overlaid into /repo) on a batch of commands; each command is a list of words."""
+    lst = os.path.join(scratch, "wbuild_%d.txt" % (time.time_ns() % 10**9))
+    with open(lst, "w") as fh:
+        for c in cmds:
+            fh.write(" ".join(c) + "\n")
+    r = subprocess.run(["go", "run", "-tags", "verif", "-overlay", overlay, "./internal/zzverif/wbuild", "batch", lst],
+                       cwd=REPO, env=GOENV, capture_output=True, text=True)
+    if r.returncode != 0:
+        raise Inconclusive("WASM-BUILD-FAILED (wbuild with the current tree): " + (r.stderr or r.stdout)[-3000:])
+
+
 def build_replay_bin(scratch, overlay, pkgdir, tag="replay"):
     out = os.path.join(scratch, tag + "_" + pkgdir.replace("/", "_") + ".test")
     r = subprocess.run(["go", "test", "-c", "-vet=off", "-tags", "verif", "-overlay", overlay, "-o", out,
@@ -95,6 +107,9 @@ def build_replay_bin(scratch, overlay, pkgdir, tag="replay"):
     if r.returncode != 0 or not os.path.exists(out):
         raise Inconclusive("HARNESS-BUILD-FAILED (native replay binary): " + (r.stderr or r.stdout)[-3000:])
     return out
+
+
+REPLAY_ENV = {}
 
 
 def native_replay(scratch, binpath, records, timeout=600):
@@ -108,7 +123,7 @@ def native_replay(scratch, binpath, records, timeout=600):
             for k, v in r["inputs"].items():
                 fh.write("in %s %s\n" % (k, v))
             fh.write("run\n")
-    env = dict(GOENV, VF_REPLAY=f)
+    env = dict(GOENV, VF_REPLAY=f, **REPLAY_ENV)
     p = subprocess.run([binpath, "-test.run", "^TestVfReplay$", "-test.timeout", "%ds" % timeout], env=env,
                        capture_output=True, text=True, timeout=timeout + 30, cwd=os.path.dirname(binpath))
     outs, cur = [], None
